@@ -9,6 +9,7 @@ package wire
 // cases are executed strictly one after another.
 
 import (
+	"sync/atomic"
 	"bytes"
 	"compress/gzip"
 	"encoding/json"
@@ -304,6 +305,30 @@ type wireRig struct {
 	zenc   *zstd.Encoder
 	shard  *sharder.MockSharder
 	direct *transmit.DirectTransmission
+	// retries counts batches the per-case DirectTransmission sent a second time (it retries
+	// once after a client-side HTTP timeout, so the upstream can see such a batch twice): a
+	// wall-clock effect that only shows on an overloaded machine
+	retries *wireRetryCounter
+}
+
+// wireRetryCounter is a metrics sink that only counts the transmission's "..._send_retries".
+type wireRetryCounter struct {
+	metrics.NullMetrics
+	n atomic.Int64
+}
+
+func (m *wireRetryCounter) Increment(name string) {
+	if strings.HasSuffix(name, "_send_retries") {
+		m.n.Add(1)
+	}
+}
+
+// sendRetries: how many batches the current case's DirectTransmission has re-sent so far.
+func (r *wireRig) sendRetries() int64 {
+	if r.retries == nil {
+		return 0
+	}
+	return r.retries.n.Load()
 }
 
 var (
@@ -417,6 +442,7 @@ func (r *wireRig) begin(c wireCaseCfg) {
 		r.shard.Other = nil
 	}
 	r.direct = nil
+	r.retries = nil
 	if c.Direct {
 		mb := c.MaxBatch
 		if mb <= 0 {
@@ -425,7 +451,8 @@ func (r *wireRig) begin(c wireCaseCfg) {
 		d := transmit.NewDirectTransmission(types.TransmitTypeUpstream, &http.Transport{MaxIdleConnsPerHost: 2}, mb, 50*time.Millisecond, 20*time.Second, c.Compress, nil)
 		d.Config = r.cfg
 		d.Logger = r.log
-		d.Metrics = &metrics.NullMetrics{}
+		r.retries = &wireRetryCounter{}
+		d.Metrics = r.retries
 		d.Version = "verif"
 		_ = d.Start()
 		r.direct = d
